@@ -659,17 +659,21 @@ class Engine:
             self._keep.append(e)
             self.pc.append(z3.And(e >= 0, e < 256))
 
-    def add_index_term(self, t):
-        """a term at which every quantified fact is instantiated (witnesses of all_true/any_true, hints)"""
-        key = t.t.get_id() if is_sym(t) else ("c", t)
+    def add_index_term(self, t, over=None):
+        """a term at which quantified facts are instantiated (witnesses of all_true/any_true, hints): every recorded
+        fact, or - when `over` is given - only the facts about that sequence (a witness index of `over`)"""
+        oid = over.t.get_id() if isinstance(over, SSeq) else None
+        key = (t.t.get_id() if is_sym(t) else ("c", t), oid)
         if key not in self._index_keys:
             self._index_keys.add(key)
-            self.index_terms.append(t)
+            self.index_terms.append((t, oid))
+            if over is not None:
+                self._keep.append(over)
 
     def saturate(self):
-        """instantiate every recorded quantified fact at every registered index term (one round)"""
-        for t in list(self.index_terms):
-            self.instantiate_all(t)
+        """instantiate the recorded quantified facts at every registered index term (one round)"""
+        for t, oid in list(self.index_terms):
+            self.instantiate_all(t, only_over=oid)
 
     def oblig(self, kind, label, goal, props=None, assume_after=True, fuc=None):
         """emit obligation  PC => goal"""
@@ -823,6 +827,37 @@ class Engine:
             return True
         return False
 
+    def prove_strong(self, f, timeout_ms=300):
+        """entailment check PC |= f with the full theory solver (incremental, one per path); only `unsat` counts"""
+        f = V.simplify_bool(f)
+        if isinstance(f, bool):
+            return f
+        key = f.t.get_id()
+        self._keep.append(f)
+        hit = self._known_cache.get(key)
+        if hit is not None and hit[0] <= len(self.pc) and self._pc_hash(hit[0]) == hit[1]:
+            return True
+        s = self._sync_isolver()
+        s.push()
+        try:
+            s.set("timeout", int(timeout_ms))
+            s.add(z3.Not(f.t))
+            r = s.check() == z3.unsat
+        finally:
+            s.pop()
+        if r:
+            n = len(self.pc)
+            self._known_cache[key] = (n, self._pc_hash(n))
+        return r
+
+    def model_of_pc(self, timeout_ms=300):
+        """some model of the current path condition (or None): used only to GUESS, every guess is then proved"""
+        s = self._sync_isolver()
+        s.set("timeout", int(timeout_ms))
+        if s.check() != z3.sat:
+            return None
+        return s.model()
+
     def _abs_entails(self, goal, timeout_ms):
         from .seqabs import Abstractor, Unsupported
 
@@ -860,7 +895,7 @@ class Engine:
         for a in ab.axioms[self._abs_nax:]:
             s.add(a)
         self._abs_nax = len(ab.axioms)
-        s.set("timeout", min(timeout_ms, 50))
+        s.set("timeout", max(min(timeout_ms, 50), int(getattr(self.contract, "known_floor_ms", 0))))
         return s.check(*(lits + [q])) == z3.unsat
 
     def _pc_hash(self, n):
@@ -927,13 +962,15 @@ class Engine:
         finally:
             self._in_inst -= 1
 
-    def instantiate_all(self, k):
+    def instantiate_all(self, k, only_over=None):
         """instantiate every recorded quantified fact at index term k (goal-directed instantiation)"""
         kid = k.t.get_id() if is_sym(k) else ("c", k)
         self._keep.append(k)
         self._in_inst += 1
         try:
             for sid, facts in list(self.seq_facts.items()):
+                if only_over is not None and sid != only_over:
+                    continue
                 for n, (fn, trig) in enumerate(list(facts)):
                     key = (sid, n, kid)
                     if key in self._inst_seen:
@@ -984,6 +1021,11 @@ class Engine:
                 conds = f.cases(k)
                 self.oblig(kind, label + "[cases-exhaustive]", V.Or(*conds), props=props, assume_after=False)
                 for ci, cnd in enumerate(conds):
+                    if ci > 0:
+                        # a fresh skolem constant per case: facts instantiated at the previous one were dropped with
+                        # the previous case's path-condition suffix
+                        k = self.fresh_int("k@" + label)
+                        cnd = f.cases(k)[ci]
                     mark = len(self.pc)
                     if isinstance(cnd, SBool):
                         self.pc.append(cnd.t)
